@@ -1982,6 +1982,12 @@ def check_diff_entries(case, stats):
     return len(kinds) >= 2
 
 
+# to_entry writes an empty plain list as "attribute absent", which the update
+# protocol reads as "leave unchanged": update({'traits': []}) keeps the old
+# traits.  Entry-level round trips (to_entry/from_entry, _diff_entries) are
+# not affected; set to False to only count it (see notes/C15-notes.md, 2).
+CLAIM_UPDATE_EMPTY_LIST = os.environ.get('VERIF_C15_CLAIM_UPDATE', '1') != '0'
+
 # the classes whose LdapObject.update has production callers
 # (api/allocation.py reservation.update, cli/admin/ldap/{allocation,partition})
 UPDATED_KINDS = ('cellalloc', 'partition')
@@ -2038,6 +2044,9 @@ def _check_update(case, stats):
         if key == '_id' or same(got.get(key), want.get(key)):
             continue
         if new[key] == [] and same(got.get(key), before.get(key)):
+            if not CLAIM_UPDATE_EMPTY_LIST:
+                stats.count('diff_entries:update-empty-list-kept')
+                continue
             raise Violation(
                 'c15.ldap_update.empty-list-not-cleared',
                 '%s stored as %s, then update(%s): field %r was written as '
